@@ -159,3 +159,40 @@ def options_stage(res, prop, focus, n_quick=160, n_thorough=2500, theorems_note=
             for r in o["rows"][:len(c["ops"])]:
                 res.count("opt:result:%s" % ("ok" if r == [0] else "err%d" % r[1]))
     return good
+
+
+# ---------------------------------------------------------------- calculate_required_slot_size (C01)
+def slot_stage(res, prop, theorems_note=""):
+    """sndbatch_bytes_physical: the real `calculate_required_slot_size` against Model/EngineCfg.slot_size, with an oracle
+    written from the property (a batch within the logical limits must fit, framed, under the ceiling)"""
+    import os
+    page = os.sysconf("SC_PAGESIZE")
+    rng = random.Random(res.seed * 104729 + 3)
+    cases = []
+    for t in [0, 1, 255, 256, 257, 511, 512, 4095, 4096, 65535, 65536, 262144, 2 ** 31 - 1]:
+        for c in [0, 1, 2, 127, 128, 256, 1024, 2 ** 31 - 1]:
+            cases.append({"target": t, "count": c})
+    n = 150 if res.tier == "quick" else 3000
+    while len(cases) < n:
+        cases.append({"target": rng.choice([rng.randrange(0, 3000), rng.randrange(0, 1 << 20), rng.randrange(0, 1 << 31)]),
+                      "count": rng.choice([rng.randrange(0, 40), rng.randrange(0, 5000), rng.randrange(0, 1 << 31)])})
+    for c in cases:
+        # a size list within the limits, adversarial: as many 256-byte frames as fit, the rest 1-byte or empty frames
+        k = min(c["count"], c["target"] // 256)
+        rest = c["count"] - k
+        small = min(rest, c["target"] - 256 * k)
+        c["framed"] = k * (256 + 9) + small * (1 + 2) + (rest - small) * 2
+
+    def oracle(c, o):
+        r = o["rows"][0]
+        if r[0] != 4:
+            return "calculate_required_slot_size panicked"
+        if r[1] < c["framed"]:
+            return ("physical ceiling %d is below the framed size %d of a batch the logical limits admit (target %d, count %d)"
+                    % (r[1], c["framed"], c["target"], c["count"]))
+        return None
+
+    res.count("optslot:cases", len(cases))
+    C.differential(res, prop, "optslot", cases, lambda c: "(%d, %d, %d)" % (page, c["target"], c["count"]), REQ,
+                   "slot_mismatches", "slot_model", oracle, theorems_note=theorems_note, tag="optslot", confirm=False,
+                   strip=lambda c: {"target": c["target"], "count": c["count"]})
